@@ -313,7 +313,7 @@ if validate_rfc3339:
         return is_datetime("1970-01-01T" + instance)
 
 
-@_checks_drafts(name="regex", raises=re.error)
+@_checks_drafts(name="regex", raises=(re.error, OverflowError))
 def is_regex(instance):
     if not isinstance(instance, str):
         return True
@@ -327,11 +327,15 @@ else:
         return datetime.datetime.strptime(instance, "%Y-%m-%d")
 
 
+# RFC 3339 full-date; fromisoformat alone also takes other ISO 8601 spellings
+_FULL_DATE = re.compile(r"[0-9]{4}-[0-9]{2}-[0-9]{2}\Z")
+
+
 @_checks_drafts(draft3="date", draft7="date", raises=ValueError)
 def is_date(instance):
     if not isinstance(instance, str):
         return True
-    return _is_date(instance)
+    return bool(_FULL_DATE.match(instance) and _is_date(instance))
 
 
 @_checks_drafts(draft3="time", raises=ValueError)
